@@ -174,7 +174,7 @@ class Delegate:
 
 
 class Client:
-    def __init__(self, world, index):
+    def __init__(self, world, index, versions=None):
         self.world, self.index = world, index
         self.events = []
         self.internal = []
@@ -182,7 +182,8 @@ class Client:
         self.link = None
         self.ep = Endpoint(world, self)
         world._building = self
-        self.w = wormhole.create(APPID, URL, world.clock, delegate=Delegate(self), _eventual_queue=EventualQueue(world.clock))
+        kw = {} if versions is None else dict(versions=versions)
+        self.w = wormhole.create(APPID, URL, world.clock, delegate=Delegate(self), _eventual_queue=EventualQueue(world.clock), **kw)
         world._building = None
         self.rc = self.w._boss._RC
 
@@ -244,8 +245,8 @@ class RealWorld:
         except Exception:
             pass
 
-    def add_client(self):
-        c = Client(self, len(self.clients))
+    def add_client(self, versions=None):
+        c = Client(self, len(self.clients), versions)
         self.clients.append(c)
         return c
 
